@@ -750,6 +750,9 @@ def complete_ensemble_sift(X, nensembles=4, ensemble_noise=.2,
     res = p.starmap(sift, args)
     noise = noise - np.array([r[:, 0] for r in res]).T
 
+    if max_imfs is not None and imf.shape[1] >= max_imfs:
+        continue_sift = False
+
     while continue_sift:
 
         proto_imf = X - imf.sum(axis=1)[:, None]
@@ -771,7 +774,7 @@ def complete_ensemble_sift(X, nensembles=4, ensemble_noise=.2,
         if len(pks) < 2:
             continue_sift = False
 
-        if max_imfs is not None and layer == max_imfs:
+        if max_imfs is not None and imf.shape[1] >= max_imfs:
             continue_sift = False
 
         if np.abs(next_imf).mean() < sift_thresh:
